@@ -442,6 +442,9 @@ pub enum Op {
     /// Builds, runs and drops another (inner) simulation with this many models from inside
     /// the handler (co-simulation), on the same kind of executor as the enclosing one.
     Nested(usize),
+    /// Builds a bench of this many models for an inner simulation and drops it without
+    /// initialising it (its model tasks are still scheduled).
+    NestedUninit(usize),
     /// Connect output port `port` of this node (through the node's own port
     /// object, possibly a clone shared with another node) to `target`.
     Connect { port: usize, target: usize },
@@ -955,6 +958,15 @@ impl Node {
                 Op::Yield => {}
                 Op::Nested(k) => {
                     run_nested(&w, k, self.spec.threads);
+                }
+                Op::NestedUninit(k) => {
+                    w.log(Ev::Note(format!("bench of {} models built and dropped without init", k)));
+                    let mut init = SimInit::with_num_threads(self.spec.threads);
+                    for j in 0..k {
+                        let mb: Mailbox<Inner> = Mailbox::new();
+                        init = init.add_model(Inner { w: w.clone(), _tok: Tracked::new(&w) }, mb, format!("inner{}", j));
+                    }
+                    drop(init);
                 }
                 Op::Connect { port, target } => {
                     let a = self.addrs[target].clone();
